@@ -15,7 +15,7 @@ mod types;
 #[cfg(feature = "verif")]
 pub mod verif;
 
-use std::collections::{BTreeMap, HashMap, HashSet};
+use std::collections::{BTreeMap, BTreeSet, HashMap, HashSet};
 use std::iter::once;
 use std::net::SocketAddr;
 use std::num::NonZeroUsize;
@@ -225,18 +225,33 @@ impl Chitchat {
             })
             .collect::<HashMap<_, _>>();
 
-        if self.previous_live_nodes != current_live_nodes {
-            let live_nodes = current_live_nodes
-                .keys()
-                .cloned()
+        // The verdict of the extra liveness predicate can change without any max version
+        // change (e.g. a key it looks at expires), so it is evaluated at every round and
+        // compared with the members that were last published.
+        let selected_live_nodes: BTreeSet<&ChitchatId> = current_live_nodes
+            .keys()
+            .filter(|chitchat_id| {
+                let Some(node_state) = self.node_state(chitchat_id) else {
+                    return false;
+                };
+                if let Some(liveness_extra_predicate) = &self.config.extra_liveness_predicate {
+                    liveness_extra_predicate(node_state)
+                } else {
+                    true
+                }
+            })
+            .collect();
+        let selection_changed = !selected_live_nodes
+            .iter()
+            .copied()
+            .eq(self.live_nodes_watcher_rx.borrow().keys());
+
+        if self.previous_live_nodes != current_live_nodes || selection_changed {
+            let live_nodes = selected_live_nodes
+                .into_iter()
                 .flat_map(|chitchat_id| {
-                    let node_state = self.node_state(&chitchat_id)?;
-                    if let Some(liveness_extra_predicate) = &self.config.extra_liveness_predicate {
-                        if !liveness_extra_predicate(node_state) {
-                            return None;
-                        }
-                    }
-                    Some((chitchat_id, node_state.clone()))
+                    let node_state = self.node_state(chitchat_id)?;
+                    Some((chitchat_id.clone(), node_state.clone()))
                 })
                 .collect::<BTreeMap<_, _>>();
             self.previous_live_nodes = current_live_nodes;
